@@ -14,6 +14,7 @@ import (
 	"bytes"
 	"encoding/json"
 	"fmt"
+	"image"
 	"io"
 	"math"
 	"os"
@@ -53,6 +54,7 @@ type DocSc struct {
 	Compress bool     `json:"compress"`
 	Reuse    int      `json:"reuse"`
 	Variant  int      `json:"variant"` // 0 FontNormal, 1 FontSubscript, 2 FontSuperscript
+	Style    int      `json:"style"`   // 0 regular, 1 italic requested from a family without an italic font (faux italic)
 	Texts    []TextSc `json:"texts"`
 }
 type HistCall struct {
@@ -260,12 +262,19 @@ type fontRec struct {
 	badText string
 }
 type spanRec struct {
-	W    int `json:"w"`    // span width in font units of the face's scale Size/unitsPerEm
-	Sum  int `json:"sum"`  // sum of the laid-out advances
-	Um   int `json:"um"`   // span width in micrometres
-	Size int `json:"size"` // face size in micrometres
-	Tf   int `json:"tf"`   // operand of Tf for this span's text object, micrometres
-	N    int `json:"n"`    // glyphs
+	pmOK bool
+	W    int   `json:"w"`    // span width in font units of the face's scale Size/unitsPerEm
+	Sum  int   `json:"sum"`  // sum of the laid-out advances
+	Um   int   `json:"um"`   // span width in micrometres
+	Size int   `json:"size"` // face size in micrometres
+	Tf   int   `json:"tf"`   // operand of Tf for this span's text object, micrometres
+	N    int   `json:"n"`    // glyphs
+	Chk  bool  `json:"chk"`  // horizontal, unrotated span whose text matrix was read: placement is compared
+	Tm   []int `json:"tm"`   // text matrix of the span's text object: a b c d in 1/10000, e f in micrometres
+	Pm   []int `json:"pm"`   // matrix under which Text.RenderAsPath draws the span's glyph path (same units)
+	Sh   int   `json:"sh"`   // faux italic shear of the face, 1/10000
+	Fox  int   `json:"fox"`  // face offset (sub/superscript) in micrometres
+	Foy  int   `json:"foy"`
 }
 type docRec struct {
 	Kind       string    `json:"kind"` // "ttf" | "cff"
@@ -280,6 +289,8 @@ type docRec struct {
 	Unreadable int       `json:"unreadable"`
 }
 type glyphEv struct {
+	tm      [6]float64
+	tmOK    bool
 	tf      int
 	Span    int    `json:"span"`
 	F       int    `json:"f"`
@@ -410,10 +421,28 @@ func render(s *Scenario) (res *rendered, ms []core.Mismatch) {
 	if err := fam.LoadFont(rf.data, 0, canvas.FontRegular); err != nil {
 		return nil, []core.Mismatch{{Signature: "machinery", Detail: err.Error()}}
 	}
-	face := fam.Face(12, canvas.Black, canvas.FontRegular, []canvas.FontVariant{canvas.FontNormal, canvas.FontSubscript, canvas.FontSuperscript}[d.Variant])
+	// raw texts (code points chosen for one font's repertoire): not applicable when the font lacks a character
+	for i, t := range d.Texts {
+		if t.Raw {
+			for _, cp := range s.Cps[i] {
+				if rf.sfnt.GlyphIndex(rune(cp)) == 0 {
+					atomic.AddInt64(&skippedDocs, 1)
+					return nil, nil
+				}
+			}
+		}
+	}
+	style := canvas.FontRegular
+	if d.Style == 1 {
+		style = canvas.FontItalic // the family has no italic font: the face gets FauxItalic (glyphs sheared by 0.3)
+	}
+	face := fam.Face(12, canvas.Black, style, []canvas.FontVariant{canvas.FontNormal, canvas.FontSubscript, canvas.FontSuperscript}[d.Variant])
 	// sub/superscript faces ask for a heavier weight; the family has the regular font only, so the face would get faux
-	// bold (outlines offset in ToPath, stroked text in the PDF). Faux styles are not C18's subject: switched off.
-	face.FauxBold, face.FauxItalic = 0, 0
+	// bold (outlines offset in ToPath, stroked text in the PDF). Faux bold is not C18's subject: switched off.
+	face.FauxBold = 0
+	if d.Style != 1 {
+		face.FauxItalic = 0
+	}
 	res = &rendered{upm: int(rf.sfnt.Head.UnitsPerEm), kind: rf.kind()}
 	for k := 0; k < d.Reuse; k++ {
 		where = "earlier document"
@@ -426,7 +455,7 @@ func render(s *Scenario) (res *rendered, ms []core.Mismatch) {
 	// PDF is written (but after the earlier documents of the scenario)
 	where = "ToPath"
 	for i, t := range d.Texts {
-		if t.Mode != "H" {
+		if t.Mode != "H" || face.FauxItalic != 0 { // a sheared path has other control point boxes: placement of sheared text is checked through the matrices
 			continue
 		}
 		str := cpString(s.Cps[i])
@@ -444,7 +473,14 @@ func render(s *Scenario) (res *rendered, ms []core.Mismatch) {
 	for i, t := range d.Texts {
 		str := cpString(s.Cps[i])
 		var txt *canvas.Text
-		if t.Mode == "H" {
+		if t.Mode == "H2" {
+			// the same line broken in the middle: the spans of the second line have y # 0
+			if rs := []rune(str); len(rs) >= 2 {
+				str = string(rs[:len(rs)/2]) + "\n" + string(rs[len(rs)/2:])
+			}
+		}
+		horizontal := t.Mode == "H" || t.Mode == "H2"
+		if horizontal {
 			txt = canvas.NewTextLine(face, str, canvas.Left)
 		} else {
 			str = strings.Trim(str, " ")
@@ -459,6 +495,9 @@ func render(s *Scenario) (res *rendered, ms []core.Mismatch) {
 			txt = rt.ToText(0, 0, canvas.Left, canvas.Top, 0, 0)
 		}
 		texts = append(texts, txt)
+		// the matrices under which the path rendering draws the spans (same view matrix as the PDF below)
+		pr := &pathRecorder{}
+		txt.RenderAsPath(pr, textMatrix(i), canvas.Resolution(0))
 		// the laid-out glyphs, in the order RenderText walks them
 		var spans []canvas.TextSpan
 		txt.WalkSpans(func(x, y float64, span canvas.TextSpan) {
@@ -466,6 +505,7 @@ func render(s *Scenario) (res *rendered, ms []core.Mismatch) {
 				spans = append(spans, span)
 			}
 		})
+		spanIdx := 0
 		var all []int
 		for _, span := range spans {
 			for _, g := range span.Glyphs {
@@ -474,7 +514,7 @@ func render(s *Scenario) (res *rendered, ms []core.Mismatch) {
 		}
 		for _, span := range spans {
 			base, offs := str, all
-			if t.Mode == "H" {
+			if horizontal {
 				base = span.Text
 				offs = nil
 				for _, g := range span.Glyphs {
@@ -495,7 +535,16 @@ func render(s *Scenario) (res *rendered, ms []core.Mismatch) {
 			}
 			// the face's scale is Size / unitsPerEm (the PDF's Tf operand is Size); MmPerEm is not used as a reference
 			scale := span.Face.Size / float64(res.upm)
-			res.spans = append(res.spans, spanRec{W: unitsOf(span.Width, scale), Sum: sum, Um: int(math.Round(span.Width * 1000)), Size: int(math.Round(span.Face.Size * 1000)), N: len(span.Glyphs)})
+			sr := spanRec{W: unitsOf(span.Width, scale), Sum: sum, Um: int(math.Round(span.Width * 1000)), Size: int(math.Round(span.Face.Size * 1000)), N: len(span.Glyphs), Tm: []int{}, Pm: []int{}}
+			if k := spanIdx; horizontal && span.Rotation == 0 && len(span.Glyphs) > 0 && !span.Glyphs[0].Vertical && k < len(pr.ms) {
+				sr.pmOK = true
+				sr.Pm = matInts(pr.ms[k])
+				sr.Sh = int(math.Round(span.Face.FauxItalic * 10000))
+				sr.Fox = int(math.Round(scale * float64(span.Face.XOffset) * 1000))
+				sr.Foy = int(math.Round(scale * float64(span.Face.YOffset) * 1000))
+			}
+			spanIdx++
+			res.spans = append(res.spans, sr)
 		}
 	}
 	res.hv = hasV && hasH
@@ -503,7 +552,7 @@ func render(s *Scenario) (res *rendered, ms []core.Mismatch) {
 	var buf bytes.Buffer
 	p := pdf.New(&buf, 200, 120, &pdf.Options{Compress: d.Compress, SubsetFonts: d.Subset, ImageEncoding: canvas.Lossless})
 	for i, txt := range texts {
-		p.RenderText(txt, canvas.Identity.Translate(10+60*float64(i), 100))
+		p.RenderText(txt, textMatrix(i))
 	}
 	if err := p.Close(); err != nil {
 		ms = append(ms, core.Mismatch{Signature: "close-error", Detail: err.Error()})
@@ -511,6 +560,26 @@ func render(s *Scenario) (res *rendered, ms []core.Mismatch) {
 	res.data = buf.Bytes()
 
 	return res, ms
+}
+
+var skippedDocs int64
+
+func textMatrix(i int) canvas.Matrix { return canvas.Identity.Translate(10+60*float64(i), 100) }
+
+// pathRecorder is a canvas.Renderer that records the matrices of RenderPath (one call per text span in Text.RenderAsPath).
+type pathRecorder struct{ ms []canvas.Matrix }
+
+func (r *pathRecorder) Size() (float64, float64) { return 200, 120 }
+func (r *pathRecorder) RenderPath(p *canvas.Path, st canvas.Style, m canvas.Matrix) {
+	r.ms = append(r.ms, m)
+}
+func (r *pathRecorder) RenderText(t *canvas.Text, m canvas.Matrix)   {}
+func (r *pathRecorder) RenderImage(img image.Image, m canvas.Matrix) {}
+
+// matInts: a b c d in 1/10000, e f in micrometres (PDF order: x' = a x + c y + e, y' = b x + d y + f)
+func matInts(m canvas.Matrix) []int {
+	r := func(v float64) int { return int(math.Round(v)) }
+	return []int{r(m[0][0] * 10000), r(m[1][0] * 10000), r(m[0][1] * 10000), r(m[1][1] * 10000), r(m[0][2] * 1000), r(m[1][2] * 1000)}
 }
 
 func observePath(face *canvas.FontFace, str string, rf *refFont) *pathRec {
@@ -761,8 +830,36 @@ func decode(id int, s *Scenario, r *rendered) (trace []byte, nEvents int, ms []c
 			continue
 		}
 		cur, tf := 0, 0
+		// text line matrix as <<a b c d e f>>; Td and Tm as defined in ISO 32000-1 9.4.2 (this writer uses no TD, T*, ', ")
+		tlm, tlmOK := [6]float64{1, 0, 0, 1, 0, 0}, false
+		num := func(v oracle.PDFValue) float64 {
+			if n, ok := v.(oracle.PDFNum); ok {
+				return n.F
+			}
+			tlmOK = false
+			return 0
+		}
 		for _, op := range oracle.ParseContent(co.Decoded) {
 			switch op.Op {
+			case "BT":
+				tlm, tlmOK = [6]float64{1, 0, 0, 1, 0, 0}, true
+			case "ET", "TD", "T*", "'", "\"":
+				tlmOK = false
+			case "Td":
+				if len(op.Args) == 2 {
+					tx, ty := num(op.Args[0]), num(op.Args[1])
+					tlm[4], tlm[5] = tx*tlm[0]+ty*tlm[2]+tlm[4], tx*tlm[1]+ty*tlm[3]+tlm[5]
+				} else {
+					tlmOK = false
+				}
+			case "Tm":
+				if len(op.Args) == 6 {
+					for k := 0; k < 6; k++ {
+						tlm[k] = num(op.Args[k])
+					}
+				} else {
+					tlmOK = false
+				}
 			case "Tf":
 				cur = 0
 				if len(op.Args) == 2 {
@@ -798,7 +895,7 @@ func decode(id int, s *Scenario, r *rendered) (trace []byte, nEvents int, ms []c
 					dr.Unreadable++
 				}
 				for _, x := range sh {
-					shown = append(shown, glyphEv{tf: tf, F: cur, Code: x.Code, Adj: x.Adj})
+					shown = append(shown, glyphEv{tm: tlm, tmOK: tlmOK, tf: tf, F: cur, Code: x.Code, Adj: x.Adj})
 				}
 			}
 		}
@@ -810,6 +907,12 @@ func decode(id int, s *Scenario, r *rendered) (trace []byte, nEvents int, ms []c
 	for i := range shown {
 		if k := r.laid[i].span; k >= 1 && k <= len(dr.Spans) {
 			dr.Spans[k-1].Tf = shown[i].tf
+			if sp := &dr.Spans[k-1]; sp.pmOK && shown[i].tmOK && len(sp.Tm) == 0 {
+				t := shown[i].tm
+				r := func(v float64) int { return int(math.Round(v)) }
+				sp.Tm = []int{r(t[0] * 10000), r(t[1] * 10000), r(t[2] * 10000), r(t[3] * 10000), r(t[4] * 1000), r(t[5] * 1000)}
+				sp.Chk = true
+			}
 		}
 	}
 	var buf bytes.Buffer
@@ -899,7 +1002,7 @@ func describe(s *Scenario) string {
 	for i, t := range d.Texts {
 		parts = append(parts, fmt.Sprintf("%s:%q", t.Mode, cpString(s.Cps[i])))
 	}
-	return fmt.Sprintf("font=%s subset=%v compress=%v reusedFontObject=%d texts=[%s]", map[int]string{1: "DejaVuSerif.ttf", 2: "EBGaramond12-Regular.otf", 3: "Dynalight-Regular.otf"}[d.Font]+[]string{"", " subscript", " superscript"}[d.Variant], d.Subset, d.Compress, d.Reuse, strings.Join(parts, " "))
+	return fmt.Sprintf("font=%s subset=%v compress=%v reusedFontObject=%d texts=[%s]", map[int]string{1: "DejaVuSerif.ttf", 2: "EBGaramond12-Regular.otf", 3: "Dynalight-Regular.otf"}[d.Font]+[]string{"", " subscript", " superscript"}[d.Variant]+[]string{"", " faux-italic"}[d.Style], d.Subset, d.Compress, d.Reuse, strings.Join(parts, " "))
 }
 
 func toMismatches(s *Scenario, fails map[string]int, trace []byte) []core.Mismatch {
@@ -911,6 +1014,20 @@ func toMismatches(s *Scenario, fails map[string]int, trace []byte) []core.Mismat
 	var ms []core.Mismatch
 	for _, sig := range sigs {
 		det := fmt.Sprintf("%s; %s", sig, describe(s))
+		if strings.HasPrefix(sig, "pdf-span-origin") || strings.HasPrefix(sig, "pdf-text-matrix") {
+			var first struct {
+				D struct {
+					Spans []spanRec `json:"spans"`
+				} `json:"d"`
+			}
+			if doc := bytes.SplitN(trace, []byte("\n"), 2); len(doc) > 0 && json.Unmarshal(doc[0], &first) == nil {
+				for i, sp := range first.D.Spans {
+					if sp.Chk {
+						det += fmt.Sprintf("; span %d: PDF text matrix %v, path rendering matrix %v (a b c d in 1/10000, e f in um), shear %d, face offset (%d,%d) um", i+1, sp.Tm, sp.Pm, sp.Sh, sp.Fox, sp.Foy)
+					}
+				}
+			}
+		}
 		if strings.HasPrefix(sig, "embedded-") || sig == "font-unreadable" {
 			var first struct {
 				D struct {
@@ -1089,7 +1206,7 @@ func nontrivialDoc(s *Scenario) bool {
 }
 
 func (d Driver) Run(c *core.Ctx) error {
-	c.Rule = "scenarios from spec/FontEmbed.tla: (a) every Get history of the subsetter of length 6 (quick) / 7 (thorough) over 4 glyph ids with the model's codes, replayed on canvas.FontSubsetter; (b) text documents = 1-2 texts over an 18-character alphabet (kerning pair AV, ligature/alternates fi, repeated glyphs, six equal digit widths, composite glyph, U+00FF/U+0100 neighbours, one non-BMP character of the font) x {DejaVuSerif.ttf, EBGaramond12-Regular.otf, Dynalight-Regular.otf} x subset on/off x writing mode {horizontal, vertical upright, vertical rotated} x {fresh font object, font object already used by an earlier subsetting document} x face variant {normal, subscript, superscript}; plus the W-array family: per font the driver measures a class of equal-advance characters and the characters with the .notdef (= DW) advance, the spec builds runs of 4..7 equal-advance characters before/after/between DW-advance characters (and runs of DW-advance characters); each document is laid out, rendered by the real pdf writer, decoded by the independent reader and validated glyph by glyph by Trace_FontEmbed.tla (incl. PDF pen advance x Tf size = span width), together with FontFace.ToPath/TextWidth observations measured in the face's scale Size/unitsPerEm; non-trivial document = some text has at least two different characters; non-trivial history = at least one repeated and one new glyph id; distinct by scenario"
+	c.Rule = "scenarios from spec/FontEmbed.tla: (a) every Get history of the subsetter of length 6 (quick) / 7 (thorough) over 4 glyph ids with the model's codes, replayed on canvas.FontSubsetter; (b) text documents = 1-2 texts over an 18-character alphabet (kerning pair AV, ligature/alternates fi, repeated glyphs, six equal digit widths, composite glyph, U+00FF/U+0100 neighbours, one non-BMP character of the font) x {DejaVuSerif.ttf, EBGaramond12-Regular.otf, Dynalight-Regular.otf} x subset on/off x writing mode {horizontal, vertical upright, vertical rotated} x {fresh font object, font object already used by an earlier subsetting document} x face variant {normal, subscript, superscript} x style {regular, faux italic} with one- and two-line texts (span placement: PDF text matrix = path-rendering matrix x face offset x shear); strings with combining marks attached by GPOS (glyph offsets) in the middle of a word; plus the W-array family: per font the driver measures a class of equal-advance characters and the characters with the .notdef (= DW) advance, the spec builds runs of 4..7 equal-advance characters before/after/between DW-advance characters (and runs of DW-advance characters); each document is laid out, rendered by the real pdf writer, decoded by the independent reader and validated glyph by glyph by Trace_FontEmbed.tla (incl. PDF pen advance x Tf size = span width), together with FontFace.ToPath/TextWidth observations measured in the face's scale Size/unitsPerEm; non-trivial document = some text has at least two different characters; non-trivial history = at least one repeated and one new glyph id; distinct by scenario"
 	c.Assumptions = []string{
 		"github.com/tdewolff/font (a dependency of the code under test) is trusted for decoding font programs: glyph outlines and advances of the source font and of the embedded program are compared through it",
 		"the reference for 'laid out' is what Text.WalkSpans reports (glyph ids, advances, clusters); shaping itself is C16's subject",
@@ -1271,6 +1388,7 @@ func (d Driver) Run(c *core.Ctx) error {
 	c.SetExtra("documents", nDocs)
 	c.SetExtra("subsetter_histories", nHist)
 	c.SetExtra("trace_events", nEvents)
+	c.SetExtra("documents_not_applicable_font_lacks_a_character", atomic.LoadInt64(&skippedDocs))
 	if nDocs == 0 || nHist == 0 {
 		c.Broken("no scenarios were generated")
 	}
